@@ -218,6 +218,11 @@ func (l *Gpos6_1) encode() []byte {
 			}
 		}
 	}
+	// The last anchor of each array has the largest offset.
+	checkOffset16(mark2ArrayOffset)
+	checkOffset16(2 + (4+6)*mark1Count - 6)
+	checkOffset16(total - mark2ArrayOffset - 6)
+
 	res := make([]byte, 0, total)
 
 	res = append(res,
